@@ -42,6 +42,8 @@ def build(case):
         lines.append({"t": "row", "toks": rw["toks"], "lead": rw["lead"], "seps": rw["seps"], "trail": rw["trail"]})
     for pos, text in sorted(case["noise"], key=lambda x: -x[0]):
         kind = "comment" if text.strip().startswith("#") else "blank"
+        if case.get("comment_char"):
+            text = text.replace("#", case["comment_char"])  # the file's data comments use the character the caller names
         lines.insert(min(pos, len(lines)), {"t": kind, "text": text})
     a["lines"] = lines
     for t in case["after"]:
@@ -150,9 +152,16 @@ def oracle(case):
     if case.get("dlm"):
         out.cls("dlm-" + case["dlm"])
     out.sample = dict(text=text if len(text) < 700 else text[:700] + "...", layout=layout)
+    rkw = {}
+    if case.get("null_policy") is not None:
+        rkw["null_policy"] = case["null_policy"]  # both engines are asked under the SAME options
+        out.cls("null_policy-%r" % (case["null_policy"],))
+    if case.get("comment_char"):
+        rkw["ignore_data_comments"] = case["comment_char"]
+        out.cls("comment-char-" + case["comment_char"])
     with Trace() as tr:
-        fast = read_text(text, engine="numpy")
-    slow = read_text(text, engine="normal")
+        fast = read_text(text, engine="numpy", **rkw)
+    slow = read_text(text, engine="normal", **rkw)
     out.cls("fast-path" if tr.fast else "fell-back-or-raised")
     out.nontrivial = bool(tr.fast and [x for x in layout if x != "declared!=columns"])
     tag = "+".join(x for x in layout if x in ("trailing-section", "single-row", "single-col", "noise-last")) or "plain"
@@ -229,6 +238,13 @@ def cases(draw, max_rows=10):
     after = [a + str(draw(st.integers(8, 40))) if a in ("OL", "PL") else a for a in after]
     d = c if draw(st.integers(0, 99)) < (85 if len(noise) < 19 else 40) else draw(st.integers(0, 10))
     extra = {}
+    k = draw(st.integers(0, 11))
+    if k == 0:
+        extra["null_policy"] = draw(st.sampled_from([["NULL", "-0.0"], "none", "common", ["NULL", "(null)"]]))
+        for rw in rows:
+            rw["toks"] = [("-0.0" if draw(st.integers(0, 5)) == 0 else t) for t in rw["toks"]]
+    elif k == 1:
+        extra["comment_char"] = draw(st.sampled_from(["%", ";", "!"]))
     if draw(st.integers(0, 5)) == 0:
         extra["wrap_spelling"] = draw(st.sampled_from(["No", "no", "N", "", "FALSE", "nO"]))
         if draw(st.booleans()):
